@@ -6,6 +6,7 @@ package main
 
 import (
 	"fmt"
+	"regexp"
 	"os"
 	"go/token"
 	"go/types"
@@ -41,6 +42,12 @@ func (c *Ctx) scanObligations(prop string) ([]*Obligation, map[string]interface{
 		obs, minfo := c.scanMapOrder(d)
 		out = append(out, obs...)
 		info["maporder "+d.File] = minfo
+	}
+	for _, pf := range c.cf.PropFiles {
+		if pf.Prop != prop {
+			continue
+		}
+		out = append(out, c.scanUntrackedErrors(pf)...)
 	}
 	for _, d := range c.cf.Callers {
 		if d.Prop != prop {
@@ -1159,4 +1166,57 @@ func (c *Ctx) reachByCalls(roots map[string]bool) []string {
 	}
 	sort.Strings(out)
 	return out
+}
+
+// scanUntrackedErrors: the error-propagation obligations follow an error from the call that
+// returns it to the return of the calling function. A function of the file that has NO error
+// result (typically a closure that parks the error in a captured variable) but calls one of
+// the propagating functions takes the error out of that reach: not allowed.
+func (c *Ctx) scanUntrackedErrors(pf PropFile) []*Obligation {
+	re, err := regexp.Compile(pf.Re)
+	if err != nil {
+		return nil
+	}
+	var names []string
+	for n := range c.funcs {
+		names = append(names, n)
+	}
+	sort.Strings(names)
+	var bad []string
+	for _, name := range names {
+		fn := c.funcs[name]
+		if fn.Blocks == nil || !fn.Pos().IsValid() || shortFile(c.fset.Position(fn.Pos()).Filename) != pf.File {
+			continue
+		}
+		res := fn.Signature.Results()
+		if res.Len() > 0 && types.TypeString(res.At(res.Len()-1).Type(), nil) == "error" {
+			continue
+		}
+		for _, b := range fn.Blocks {
+			for _, in := range b.Instrs {
+				ci, ok := in.(ssa.CallInstruction)
+				if !ok {
+					continue
+				}
+				cc := ci.Common()
+				if !re.MatchString(calleeBareName(cc)) {
+					continue
+				}
+				sig, _ := cc.Value.Type().Underlying().(*types.Signature)
+				if cc.IsInvoke() {
+					sig, _ = cc.Method.Type().(*types.Signature)
+				}
+				if sig == nil || sig.Results().Len() == 0 || types.TypeString(sig.Results().At(sig.Results().Len()-1).Type(), nil) != "error" {
+					continue
+				}
+				bad = append(bad, fmt.Sprintf("%s (no error result) calls %s at %s", name, calleeBareName(cc), c.posStr(in.Pos())))
+			}
+		}
+	}
+	ob := &Obligation{Name: "err.untracked[" + pf.File + "]", Kind: "err.untracked", Fn: pf.File, Props: []string{pf.Prop}, Backend: "ssa-scan", Status: "ok"}
+	if len(bad) > 0 {
+		ob.Status = "failed"
+		ob.Model = "an error of a propagating call can leave through a function without an error result: " + strings.Join(bad, "; ")
+	}
+	return []*Obligation{ob}
 }
